@@ -135,3 +135,108 @@ def join_sib(ctx, rule="JOIN-SIB"):
     for g, b, t in wn:
         SG = Sym(prog, g)
         ctx.ok(rule, "prefix in %s" % g.path.rsplit("::", 1)[-1], SG.val(t["args"][1]), g.loc(t["sp"]))
+
+
+def join_shape(ctx, rule="JOIN-SHAPE"):
+    """which table feeds which part of a join result (C12)"""
+    from ..lib import call_of, symcalls
+    prog = ctx.prog
+    ctx.rule(rule, "in each join arm: result columns = left table's columns prefixed with the left table's name, then the right table's prefixed with the right table's name; "
+                   "rows are built by an outer loop over the left rows and an inner loop over the right rows, cells chained left-then-right; the left join pads with one "
+                   "Null per RIGHT column, exactly when no right row matched; a row is kept exactly when to_bool(condition.eval(row)) is true")
+    f = prog.fn("msi::internal::query::Join::exec")
+    S = Sym(prog, f)
+    dom = cfg.dominators(f)
+    loops = cfg.natural_loops(f)
+    cs = symcalls(prog, f, S)
+    vs = {v["idx"]: v["name"] for v in prog.adts["msi::internal::query::Join"]["variants"]}
+
+    def arm_of(b):
+        for (e, op, v, g) in S.facts_at(b):
+            if e == "discr(p1)" and op == "==":
+                return vs.get(v)
+        return None
+
+    def tid(v):
+        m = re.findall(r"call@(\d+):internal::table::Rows::<'a>::into_table_and_values", v)
+        return int(m[-1]) if m else None
+    for arm in ("Inner", "Left"):
+        itv = sorted([c for c in cs if c[1].endswith("Rows::<'a>::into_table_and_values") and arm_of(c[0]) == arm], key=lambda c: len(dom[c[0]]))
+        if not ctx.check(len(itv) == 2, rule, "%s: two sub-selects" % arm, "", "Join::%s does not evaluate exactly two sub-selects" % arm, f.loc(), fn=f.name, key="%s|%s|two" % (rule, arm)):
+            continue
+        T1, T2 = itv[0][0], itv[1][0]
+        maps = [c for c in cs if c[1].endswith("Iterator::map") and arm_of(c[0]) == arm and "Table::columns(" in c[2][0]]
+        pref = [c for c in maps if "into_table_and_values" in c[2][1]]
+        pad = [c for c in maps if c[2][1] == "agg{}"]
+        okp = len(pref) == 2 and all(tid(c[2][0]) == tid(c[2][1]) for c in pref) and sorted(tid(c[2][0]) for c in pref) == sorted([T1, T2])
+        ctx.check(okp, rule, "%s: each side's columns are prefixed with its own table name" % arm, "", "Join::%s prefixes columns of table %s with the name of table %s" % (
+            arm, [tid(c[2][0]) for c in pref], [tid(c[2][1]) for c in pref]), f.loc(), fn=f.name, key="%s|%s|prefix" % (rule, arm))
+        ch = [c for c in cs if c[1].endswith("Iterator::chain") and arm_of(c[0]) == arm]
+        colchain = [c for c in ch if "Iterator::map" in c[2][0] and "Iterator::map" in c[2][1]]
+        okc = False
+        if len(colchain) == 1 and okp:
+            a0 = int(re.search(r"call@(\d+):", colchain[0][2][0]).group(1))
+            a1 = int(re.search(r"call@(\d+):", colchain[0][2][1]).group(1))
+            src = {c[0]: tid(c[2][0]) for c in pref}
+            okc = src.get(a0) == T1 and src.get(a1) == T2
+        ctx.check(okc, rule, "%s: left columns first" % arm, "", "Join::%s does not chain left-table columns before right-table columns" % arm, f.loc(), fn=f.name, key="%s|%s|colorder" % (rule, arm))
+        # row loops
+        nexts = [c for c in cs if c[1].endswith("Iterator>::next") and arm_of(c[0]) == arm and "into_table_and_values" in c[2][0] and re.search(r"into_table_and_values\.1", c[2][0])]
+        n1 = [c for c in nexts if tid(c[2][0]) == T1]
+        n2 = [c for c in nexts if tid(c[2][0]) == T2]
+        okl = len(n1) == 1 and len(n2) == 1
+        if okl:
+            l1 = [bl for h, bl in loops.items() if n1[0][0] in bl]
+            l2 = [bl for h, bl in loops.items() if n2[0][0] in bl]
+            inner = min(l2, key=len) if l2 else set()
+            outer = min(l1, key=len) if l1 else set()
+            okl = bool(inner) and bool(outer) and inner < outer
+        ctx.check(okl, rule, "%s: left rows outer, right rows inner" % arm, "", "Join::%s does not iterate left rows in the outer and right rows in the inner loop" % arm, f.loc(), fn=f.name,
+                  key="%s|%s|loops" % (rule, arm))
+        rowchain = [c for c in ch if "Iterator>::next@Some.0" in c[2][0] and "Iterator>::next@Some.0" in c[2][1]]
+        okr = False
+        if len(rowchain) == 1 and okl:
+            a0 = int(re.findall(r"call@(\d+):", rowchain[0][2][0])[-1])
+            a1 = int(re.findall(r"call@(\d+):", rowchain[0][2][1])[-1])
+            okr = a0 == n1[0][0] and a1 == n2[0][0]
+        ctx.check(okr, rule, "%s: left cells first" % arm, "", "Join::%s does not chain the left row's cells before the right row's" % arm, f.loc(), fn=f.name, key="%s|%s|cellorder" % (rule, arm))
+        # keep exactly when the condition is true
+        push = [c for c in cs if c[1].endswith("Vec::<T, A>::push") and arm_of(c[0]) == arm and any(tr is True and "Value::to_bool" in e for (e, tr, g) in S.bool_facts_at(c[0]))]
+        ev = [c for c in cs if c[1].endswith("Expr::eval") and arm_of(c[0]) == arm]
+        tb = [c for c in cs if c[1].endswith("Value::to_bool") and arm_of(c[0]) == arm and "Expr::eval" in c[2][0]]
+        ctx.check(len(push) == 1 and len(ev) == 1 and len(tb) == 1, rule, "%s: row kept iff condition true" % arm, "", "Join::%s does not push the combined row exactly under to_bool(condition.eval(row)) == true" % arm,
+                  f.loc(), fn=f.name, key="%s|%s|keep" % (rule, arm))
+        if arm == "Left":
+            okn = len(pad) == 1 and tid(pad[0][2][0]) == T2
+            ctx.check(okn, rule, "Left: null padding has one Null per right column", "", "Join::Left pads unmatched rows over the columns of table %s, expected the right table %s" % (
+                [tid(c[2][0]) for c in pad], T2), f.loc(), fn=f.name, key="%s|Left|pad" % rule)
+            # padded row pushed on the `no match found` edge of a flag that is reset per left row and set when a match is pushed
+            pp = [c for c in cs if c[1].endswith("Vec::<T, A>::push") and arm_of(c[0]) == "Left" and c not in push]
+            okf = False
+            if len(pp) == 1 and push:
+                flags = [(e, tr) for (e, tr, g) in S.bool_facts_at(pp[0][0]) if re.fullmatch(r"_\d+", e)]
+                if flags and flags[-1][1] is False:
+                    L = int(flags[-1][0][1:])
+                    sets = [(bl["id"], s["rhs"]["ops"][0].get("int")) for bl in f.blocks if not bl["cleanup"] for s in bl["stmts"]
+                            if s["lhs"]["l"] == L and not s["lhs"]["p"] and s["rhs"]["rv"] == "use" and s["rhs"]["ops"][0].get("k") == "const"]
+                    t_blocks = [b for b, v in sets if v == 1]
+                    f_blocks = [b for b, v in sets if v == 0]
+                    okf = len(t_blocks) == 1 and len(f_blocks) == 1 and any(tr is True and "Value::to_bool" in e for (e, tr, g) in S.bool_facts_at(t_blocks[0])) \
+                        and f_blocks[0] in outer and f_blocks[0] not in inner and pp[0][0] in outer and pp[0][0] not in inner
+            ctx.check(okf, rule, "Left: padded row exactly when no right row matched", "", "Join::Left does not emit the null-padded row exactly when no right row matched (per-left-row flag reset, set on match, tested after the inner loop)",
+                      f.loc(), fn=f.name, key="%s|Left|flag" % rule)
+    # Select::exec: projection depends on the requested columns only; filter keeps to_bool(eval)
+    g = prog.fn("msi::internal::query::Select::exec")
+    Sg = Sym(prog, g)
+    tn = [c for c in symcalls(prog, g, Sg) if c[1].endswith("Table::new")]
+    ok = len(tn) == 1
+    extra = []
+    if ok:
+        facts = [(e, tr) for (e, tr, gb) in Sg.bool_facts_at(tn[0][0]) if isinstance(tr, bool)]
+        extra = [(e, tr) for (e, tr) in facts if not (tr is False and re.fullmatch(r"std::vec::Vec::<T, A>::is_empty\(&call@\d+:std::vec::Vec::<T>::with_capacity\)", e))]
+        ok = len(facts) - len(extra) == 1 and not extra
+    ctx.check(ok, rule, "Select: projection depends on the requested column list alone", "", "the projection step of Select::exec is additionally conditioned on %s: a result restricted to "
+              "the requested columns is then not produced in those cases (e.g. when no row matched)" % [(e[:60], tr) for e, tr in extra], g.loc(), fn=g.name, key="%s|Select|projection" % rule)
+    rc = [c for c in g.closures if any(cname(prog, t) == EVAL for b, t in c.calls())]
+    okc = len(rc) == 1 and any(cname(prog, t).endswith("Value::to_bool") and t["dest"]["l"] == 0 for b, t in rc[0].calls())
+    ctx.check(okc, rule, "Select: filter keeps rows whose condition is true", "", "Select::exec's retain closure does not return to_bool(condition.eval(row)) directly", g.loc(), fn=g.name, key="%s|Select|filter" % rule)
